@@ -33,12 +33,25 @@ type config struct {
 	Receivers int    `json:"receivers"`
 	DataSize  int    `json:"datasize"`
 	NoProg    bool   `json:"progress_counters_off,omitempty"` // the largest exhaustive configurations leave the bounded-progress counters out of the state
+	// MaxHold: an agent keeps its request up at most this many cycles after the ack (0 = 1). Longer holds
+	// let the arbiter's rotation come back to an agent whose finished request is still high.
+	MaxHold int `json:"max_hold,omitempty"`
+}
+
+func (c config) maxHold() int {
+	if c.MaxHold > 0 {
+		return c.MaxHold
+	}
+	return 1
 }
 
 func (c config) String() string {
 	s := fmt.Sprintf("%s depth=%d senders=%d receivers=%d data=%d", c.MemType, c.Depth, c.Senders, c.Receivers, c.DataSize)
 	if c.NoProg {
 		s += " (no progress counters)"
+	}
+	if c.MaxHold > 1 {
+		s += fmt.Sprintf(" hold<=%d", c.MaxHold)
 	}
 	return s
 }
@@ -73,7 +86,6 @@ type agent struct {
 	Hold  int    // cycles the request was kept up after the ack (bounded by maxHold: agents complete their handshakes)
 }
 
-const maxHold = 1
 
 type world struct {
 	sim  *vsim.Sim
@@ -108,7 +120,7 @@ func newWorld(c config) (*world, error) {
 		return nil, err
 	}
 	w := &world{sim: sim, cfg: c, snd: make([]agent, c.Senders), rcv: make([]agent, c.Receivers)}
-	w.B = (c.Depth+1)*(c.Senders+c.Receivers+4) + 4
+	w.B = (c.Depth+1)*(c.Senders+c.Receivers+4)*c.maxHold() + 4
 	// reset
 	sim.Set("clk", 0)
 	sim.Set("reset", 1)
@@ -160,7 +172,7 @@ func (w *world) step(sChoice, rChoice []int, dataOf func(i, choice int) uint64, 
 				}
 			}
 		case acked:
-			if sChoice[i] > 0 || a.Hold >= maxHold {
+			if sChoice[i] > 0 || a.Hold >= c.maxHold() {
 				a.Phase = waitlow
 				a.Hold = 0
 			} else {
@@ -186,7 +198,7 @@ func (w *world) step(sChoice, rChoice []int, dataOf func(i, choice int) uint64, 
 				}
 			}
 		case acked:
-			if rChoice[i] > 0 || a.Hold >= maxHold {
+			if rChoice[i] > 0 || a.Hold >= c.maxHold() {
 				a.Phase = waitlow
 				a.Hold = 0
 			} else {
@@ -426,7 +438,7 @@ func explore(c config, maxStates int) (states, transitions int, viol string, wit
 				nS[i] = 1 + nData
 			case acked:
 				nS[i] = 2
-				if a.Hold >= maxHold {
+				if a.Hold >= c.maxHold() {
 					nS[i] = 1
 				}
 			default:
@@ -440,7 +452,7 @@ func explore(c config, maxStates int) (states, transitions int, viol string, wit
 				nR[i] = 2
 			case acked:
 				nR[i] = 2
-				if a.Hold >= maxHold {
+				if a.Hold >= c.maxHold() {
 					nR[i] = 1
 				}
 			default:
@@ -616,7 +628,7 @@ func main() {
 	run.Rule = "exhaustive: breadth-first over all joint agent choices from every reachable combined state (vsim state hash, agent phases/data/progress counters, abstract sequence) of each bounded configuration; random: seeded walks with unique data values through write-heavy, read-heavy and saturated regimes, online refinement monitor + porcupine linearizability of the recorded history; non-trivial = a configuration in which ≥1 write and ≥1 read were acknowledged"
 	run.Assume = []string{"vsim executes the generated Verilog (2-state, cycle based; see internal/vsim/NOTES.md)",
 		"agents follow the write/ack, read/ack four-phase handshake and may dawdle before dropping a request",
-		"agents complete their handshakes: a request is kept up at most 1 cycle after its ack", "progress bound B = (Depth+1)·(agents+4)+4 cycles of continuous enabled requesting"}
+		"agents complete their handshakes: a request is kept up at most 1 cycle after its ack (3 in the hold<=3 exhaustive configurations, 5 in the hold<=5 random walks)", "progress bound B = (Depth+1)·(agents+4)+4 cycles of continuous enabled requesting"}
 	run.Floor = 2
 	scratch, clean := hx.Scratch("c13")
 	defer clean()
@@ -665,6 +677,10 @@ func main() {
 				}
 			}
 		}
+		// agents that keep a finished request up for up to 3 cycles (the arbiter's rotation comes back
+		// to them): two agents of one kind
+		cfgs = append(cfgs, config{MemType: mt, Depth: 2, Senders: 2, Receivers: 1, DataSize: 1, MaxHold: 3, NoProg: true},
+			config{MemType: mt, Depth: 2, Senders: 1, Receivers: 2, DataSize: 1, MaxHold: 3, NoProg: true})
 		// two data bits on the smallest shapes
 		cfgs = append(cfgs, config{MemType: mt, Depth: 2, Senders: 1, Receivers: 1, DataSize: 2}, config{MemType: mt, Depth: 3, Senders: 1, Receivers: 2, DataSize: 1}, config{MemType: mt, Depth: 3, Senders: 2, Receivers: 1, DataSize: 1})
 	}
@@ -710,6 +726,9 @@ func main() {
 	for _, mt := range []string{"LIFO", "FIFO"} {
 		for _, x := range [][4]int{{4, 3, 3, 16}, {3, 2, 3, 16}, {8, 1, 1, 40}, {1, 3, 3, 16}, {5, 3, 2, 8}, {16, 2, 2, 16}, {7, 3, 3, 16}} {
 			rc = append(rc, config{MemType: mt, Depth: x[0], Senders: x[1], Receivers: x[2], DataSize: x[3]})
+			if x[1]+x[2] >= 4 {
+				rc = append(rc, config{MemType: mt, Depth: x[0], Senders: x[1], Receivers: x[2], DataSize: x[3], MaxHold: 5})
+			}
 		}
 	}
 	cycles := 20000
